@@ -77,6 +77,12 @@ def gen_simulation(rs, n_rows=(24, 60), force_nn_pair=None, absent_arm=False, fo
         for c in cfgs:
             if c["np"]["kind"] == "radius" and rs.integers(2):
                 i_, j_ = int(rs.integers(n)), int(rs.integers(n))
+                if rs.integers(2):
+                    # ... the distance from a row to its *nearest* other row: for that row no neighbour is closer than the radius
+                    dd_ = cdist(np.asarray([X[i_]], dtype=float), np.asarray(X, dtype=float), metric=c["np"]["metric"])[0]
+                    cand = [k_ for k_ in range(n) if dd_[k_] > 0]
+                    if cand:
+                        j_ = min(cand, key=lambda k_: dd_[k_])
                 r_ = float(cdist(np.asarray([X[i_]], dtype=float), np.asarray([X[j_]], dtype=float), metric=c["np"]["metric"])[0][0])
                 if r_ > 0:
                     from mon.oracles import nhood
